@@ -30,11 +30,19 @@ def result_class(r):
 
 
 def e2e_nontrivial(tok, res):
+    if tok[0] == "hc":
+        return ",ok" in res
     return tok[0] == "hx" and res.startswith("be=") and not res.startswith("be=-")
 
 
 def e2e_class(r):
     # proxy of the lattice (kind/enc/comp/limiter) x how the user's read ended x body beyond one small burst
+    if r.startswith("u0="):
+        # a concurrent round: kinds x useCompression of its users, how many users, did every exchange end ok
+        exs = [e.split(",") for u in r.split(";") for e in u.split("=", 1)[1].split("+")]
+        kinds = sorted({"%s%s" % (e[0].split("/")[0], "+comp" if e[0].split("/")[2:3] == ["1"] else "") for e in exs if e[0] != "-"})
+        n = len(r.split(";"))
+        return "%s users=%s %s" % (",".join(kinds) or "-", "2-4" if n <= 4 else "5-8", "ok" if all(e[-1] == "ok" for e in exs) else "NOT-OK")
     if not r.startswith("be="):
         return r[:20]
     kv = dict(x.split("=", 1) for x in r.split(";") if "=" in x)
@@ -44,7 +52,7 @@ def e2e_class(r):
 
 PROP = {
     "level": "proof",
-    "gens": [],
+    "gens": ["CodecFacts"],
     "theorems": [
         "Frp.C02.request_line_body_untouched", "Frp.C02.host_spec", "Frp.C02.request_headers_preserved",
         "Frp.C02.configured_header_spec", "Frp.C02.configured_order_irrelevant", "Frp.C02.configured_dup_witness",
@@ -65,6 +73,11 @@ PROP = {
         "Frp.C02.httpServerLayer_eq", "Frp.C02.e2e_request_delivered", "Frp.C02.e2e_request_prefix",
         "Frp.C02.e2e_response_delivered", "Frp.C02.e2e_response_prefix", "Frp.C02.e2e_exchange_transparent",
         "Frp.C02.limited_write_whole", "Frp.C02.e2eHolds_sound", "Frp.C02.model_e2eHolds",
+        "Frp.C02.codec_frp_safe", "Frp.C02.codec_exclusive", "Frp.C02.codec_own_stream", "Frp.C02.codec_own_stream_from",
+        "Frp.C02.codec_frp_own_stream", "Frp.C02.codec_release_at_return_witness", "Frp.C02.codec_double_release_witness",
+        "Frp.C02.codec_unsafe_breaks", "Frp.C02.roundHolds_sound", "Frp.C02.model_roundHolds",
+        "Frp.C02.plugin_raw_serves_all", "Frp.C02.plugin_wrapped_serves_one", "Frp.C02.plugin_wrapped_keepalive_witness",
+        "Frp.C02.codec_source_disc", "Frp.C02.codec_source_safe", "Frp.C02.codec_source_plugins_queue",
     ],
     "engines": [
         {"name": "http", "quick_n": 3000, "thorough_n": 12000, "thorough_seeds": 4,
@@ -93,9 +106,12 @@ PROP = {
             "when a backend received the handshake (it records before it answers 101 / 200) the user gets that status and "
             "every tunnel byte of both directions, otherwise 404 + the not-found page. "
             "httpe2e engine: a real frps (vhost HTTP port) + real frpc in one process, 2 transport configurations (tcpMux / TLS / "
-            "pool on, all off), 24 http proxies each: useEncryption x useCompression x bandwidthLimit {none, 8KB server, 8KB "
-            "client, 1MB server, 1MB client} + 4 with the http2http client plugin, every proxy with its own recording raw "
-            "HTTP/1.1 backend (answers tagged with the proxy key). 68 exchanges per quick run on a persistent user "
+            "pool on, all off), 38 proxies each: 20 plain http proxies useEncryption x useCompression x bandwidthLimit {none, 8KB "
+            "server, 8KB client, 1MB server, 1MB client}, http proxies with the http2http and http2https client plugins and "
+            "https proxies (vhost HTTPS port, routed by SNI) with the https2http and https2https plugins, each plugin x "
+            "useEncryption x useCompression (+ 2 http2http with the 8KB client limiter), every proxy with its own recording raw "
+            "HTTP/1.1 backend (behind TLS for the *2https plugins; answers tagged with the proxy key and the id of the "
+            "exchange). 68 single exchanges (op hx) per quick run on a persistent user "
             "connection (work connections stay pooled between requests): GET / POST / PUT, request and answer bodies "
             "Content-Length / chunked / close-delimited, sizes 0 .. 1.2 MiB with the classes burst-1, burst, burst+1, "
             "1.2-2.6 bursts for the small limit (8192 < the 16 / 32 KiB copy buffers that feed limit.Writer) and above "
@@ -105,7 +121,20 @@ PROP = {
             "the backend of the proxy named by Host got method, target and the body byte for byte (len + FNV-32a; bodies "
             "up to 24 bytes in full), the user got that backend's status and body, the read ended at the end of the body. "
             "A timeout alone is executed once more on a fresh connection before it counts; a truncated / different body, "
-            "status or backend is never retried. No upper time bound is checked.",
+            "status or backend is never retried. No upper time bound is checked. CONCURRENT rounds (op hc, 40 per quick "
+            "run, about 400 exchanges): 2-8 users at once, each on ITS OWN connection (TCP to the vhost HTTP port, TLS + SNI "
+            "to the vhost HTTPS port), 1-3 exchanges back to back per connection, every exchange with its own id, request "
+            "body (cl / ch, 1 B .. 70 KB) and answer body; classes: all users on ONE proxy (the first ten rounds walk over "
+            "plain, http2http, http2https, https2http, https2https with useCompression on, then off), several proxies with "
+            "the same useCompression, any mix; hold=1: the backends hold the first exchange of every user until all have "
+            "arrived (event driven, bounded 1.5 s), so n work connections of the frpc are alive at the same moment; hold=0: "
+            "free overlap; work connections of http proxies stay pooled in frps' Transport between rounds. roundHolds "
+            "demands for EVERY exchange of EVERY user: the backend of the proxy its Host / SNI names got method, target and "
+            "body, the user got that backend's status and body, complete, and the answer carries the id of THIS exchange. "
+            "The Lean engine runs the round's schedule on CodecPool.run with the discipline READ FROM client/proxy/proxy.go "
+            "(Gen.CodecFacts.disc), pool state carried from round to round, and predicts 'own answer' only while every "
+            "Read / Write works on its own stream. A user whose only symptom is a timeout takes its result from ONE more "
+            "execution of the whole round (same concurrency); a foreign / mixed-up / truncated answer is never retried.",
     "trusted": COMMON_TRUST + [
         "models Frp/Model/HttpRewrite.lean, HttpPool.lean written by hand from pkg/util/vhost/http.go and from the "
         "go1.23 sources of net/http/httputil.ReverseProxy, http.Transport, http.Server (those standard-library "
@@ -117,6 +146,16 @@ PROP = {
         "'request written' and 'header block read', NO deadline on the request context, none at all on CONNECT) written "
         "by hand from pkg/util/vhost/http.go and net/http transport.go / reverseproxy.go; tied to the code only by the "
         "timed exchanges of the engine (real timers, nothing within 600 ms of the 1 s timeout)",
+        "model Frp/Model/CodecPool.lean (golib's process-wide sync.Pool of snappy readers / writers as a resource: Get with any "
+        "choice, Reset binds the object to a stream, Put; the events of HandleTCPWorkConnection on the plain, plugin and "
+        "error paths) written by hand from golib io/io.go, pool/snappy.go and client/proxy/proxy.go; WHERE the recycle "
+        "function is called (Disc) is regenerated from the source by translate/gen_codecfacts.go on every run and proved "
+        "equal to the hand-written frpDisc (codec_source_disc); that libio.Join returns only after both copy directions "
+        "ended and that Handle of the HTTP plugins only queues the connection (checked syntactically: PutConn, no Join) "
+        "are assumptions of the event alphabet; the server side (server/proxy/proxy.go, http.go) uses the same pool with "
+        "the same after-Join discipline and is covered by the same rounds but not by the generator",
+        "model Frp/Model/ConnReader.lean (net/http conn.serve + abortPendingRead against sticky crypto / snappy reader "
+        "errors) written by hand; tied by harness/corpus/httpe2e/01-plugin-keepalive-wrapped.ops (known finding)",
         "relational: which idle connection the Transport picked, framing of empty bodies and of answers, Content-Type "
         "sniffing of unknown-length answers (timer race inside ReverseProxy) are taken from the implementation's result",
     ],
@@ -125,12 +164,25 @@ PROP = {
         "queries containing ';' or an invalid % escape are re-encoded by httputil.ReverseProxy (cleanQueryParams) before "
         "frp's hook runs: outside the model's domain (skipped, counted); the backend does NOT get such a query unchanged",
         "the four client plugins are driven directly (real plugin Handle, TLS on either side where the plugin "
-        "uses it), about 35 requests per quick run; through a real frps+frpc pair only http2http is driven (httpe2e), the "
-        "TLS plugins and the vhost HTTPS port are not",
+        "uses it), about 35 requests per quick run (header rewriting compared there), and through a real frps+frpc pair "
+        "in the concurrent rounds of httpe2e (routing, request line, bodies, own answer); the socks5 / http_proxy / "
+        "static_file / unix_domain_socket / tls2raw plugins are not HTTP-forwarding plugins of the property and are not driven",
+        "KNOWN_FINDINGS C02-plugin-keepalive-wrapped: a work connection with useEncryption / useCompression served by a "
+        "client plugin answers ONE request; generated rounds therefore carry one exchange per connection for such users and "
+        "hold them (http proxies) so that no work connection is re-used inside a round; a second request on such a "
+        "connection is driven by the corpus file only (https proxies: deterministic cut), the 404 an http proxy may answer to "
+        "a POST written onto the dying idle work connection is a race and is not generated",
         "httpe2e: header rewriting is not compared there (engine http does that), only routing to the right backend, "
         "request line, status, bodies and the end of the read; cipher / compression lawfulness and yamux / TLS / TCP "
         "transports are C01's assumptions (Layers.Lawful), sampled here with real golib layers on both ends; real-time "
         "cost of the 8 KB/s limiters bounds the volume (about 240 KB per quick run through them)",
+        "httpe2e: the recording backends answer a request that has a body 3 ms after its last byte (and hold the first "
+        "exchange of a round until all have arrived): an answer in the same instant races net/http itself — the server "
+        "closes the request body when the proxy handler writes the answer's header, a Transport still doing its last "
+        "probing Read of that body fails with 'invalid Read on closed Body' and closes the connection the answer comes "
+        "from (httputil.ReverseProxy without full duplex, in frps and in the plugins; observed as a truncated answer in "
+        "about 1 of 50-100 runs on a loaded machine, root-caused with a stack trace of the closing goroutine); that "
+        "scheduling artefact of the standard library is not sampled",
         "h2c: only the upgrade of RFC 7540 3.2 with one request (stream 1) is driven; prior-knowledge h2c (PRI) has no Host "
         "and is answered 404 by frp's no-route branch; later streams of an upgraded connection are not driven",
         "TLS termination: X-Forwarded-Proto=https branch is proved but not sampled (vhost HTTP port is plain)",
@@ -169,7 +221,16 @@ META = {
             "combination of useEncryption / useCompression / bandwidthLimit mode and every burst > 0, prefixes at any "
             "moment; one Write of any size through the limiter never asks WaitN for more than the burst. Tie: 3000 "
             "generated ops per quick run on the real HTTPReverseProxy (about 30 timed exchanges, about 130 upgrades, 20 "
-            "h2c upgrades) + 68 exchanges through a real frps+frpc pair over the tunnel-option lattice.",
+            "h2c upgrades) + 68 exchanges through a real frps+frpc pair over the tunnel-option lattice + 40 rounds of 2-8 "
+            "SIMULTANEOUS users (about 400 exchanges) through the plain path and the http2http / http2https / https2http / "
+            "https2https plugins x useEncryption x useCompression, each user checked for exactly its own answer. Concurrency: "
+            "the pooled snappy reader / writer of compressed work connections is a shared resource; with the recycle sites "
+            "of client/proxy/proxy.go (read from the source: once, after Join returned; never on the plugin path) no two live "
+            "connections ever hold the same object and every Read / Write works on its own stream, for ALL interleavings and "
+            "all choices of sync.Pool.Get; recycling at the return of the plugin path, or twice, breaks it (witnesses; every "
+            "unsafe discipline has a breaking schedule). NOT true on the code as it is (KNOWN_FINDINGS "
+            "C02-plugin-keepalive-wrapped, witness plugin_wrapped_keepalive_witness): a work connection with useEncryption or "
+            "useCompression served by an HTTP client plugin answers one request only.",
     "note": "Trusted: Lean kernel; hand-written models; net/http, httputil.ReverseProxy, http.Transport (assumed, "
             "sampled); harness generators and canonicalisation. Switch to the repaired model: HttpPool.poolIsFixed := true "
             "after committing hooks/C02-fix-pool-key.patch.",
